@@ -51,7 +51,8 @@ BEAM_DIMS = {"beam1d": 1, "beam2d": 2, "beam3d": 3}
 BEAM_THEORIES = ["EB", "TIMO"]
 BEAM_MESHES = {1: ["two", "strip3", "gmsh", "twosec"], 2: ["two", "strip3", "gmsh", "twosec", "frame"],
                3: ["two", "strip3", "gmsh", "twosec", "frame"]}
-BEAM_DIRS = {1: ["x"], 2: ["x", "y", "negx", "incl"], 3: ["x", "y", "z", "incl"]}
+# "negx0": the member lies ON the x axis and points towards -x (no offset: the mesh stays embedded in one dimension, which the library keys on)
+BEAM_DIRS = {1: ["x", "negx0"], 2: ["x", "y", "negx", "incl", "negx0"], 3: ["x", "y", "z", "incl", "negx0"]}
 SECTIONS = {"A": (0.6, 0.8), "B": (0.9, 0.5)}  # stocky on purpose: keeps EI/L^3 within 1e-6 of EA/L (conditioning)
 NVERT = {"SEG": 2, "TRI": 3, "QUAD": 4, "TETRA": 4, "HEXA": 8, "PRISM": 6}
 
@@ -117,7 +118,7 @@ def describe(tier, seed):
         "alphabet": {"simulations": len(CONT_SIMS) + 2 * len(BEAM_DIMS), "sim_x_elemType_pairs": n_c + 24,
                      "meshes_continuum": len(CONT_MESHES) + (4 if tier == "thorough" else 0), "meshes_beam": 5,
                      "materials_elastic2d": 6, "materials_elastic3d": 5, "materials_thermal": 2, "thickness": 2, "density": 3,
-                     "beam_directions_2d": 4 + (2 if tier == "thorough" else 0), "beam_directions_3d": 4},
+                     "beam_directions_1d": 2, "beam_directions_2d": 5 + (2 if tier == "thorough" else 0), "beam_directions_3d": 5},
         "assumptions": [
             "meshes are connected, without orphan nodes, >= 2 elements (verified per case; otherwise skipped and counted)",
             "materials are SPD with condition number <= ~50; zero-energy threshold 1e-10*lmax, cases with an eigenvalue in "
@@ -637,6 +638,8 @@ def _beam_layout(d, letter):
 
 def _beam_motion(d, letter):
     """rotation applied to the canonical layout (+ a fixed offset of the origin)."""
+    if letter == "negx0":
+        return np.array([[-1, 0, 0], [0, -1, 0], [0, 0, 1.0]]), np.array([0.2, 0.0, 0.0])
     if d == 1:
         return np.eye(3), np.array([0.2, 0.0, 0.0])
     off = np.array([0.2, -0.1, 0.0]) if d == 2 else np.array([0.2, -0.1, 0.15])
